@@ -180,4 +180,24 @@ def handleFen : List String → Ans
     | none => bad
   | _ => bad
 
+/-- front ends (`glue` streams): the text reaches `parse_fen` unchanged through `new_game_from_fen` (only the
+squares can be read back, through `ChessGame::get`) and through the `on-board` argument of the command line
+(which prints the board it parsed, in `Display` form, before it starts to think) -/
+def handleGlue : List String → Ans
+  | ["wasmfen", hex] =>
+    match parseBytes hex with
+    | some bs =>
+      ((match Fen.parseFen bs with
+        | .ok b => "ok " ++ String.ofList ((List.finRange 64).map (fun s => charOfPiece (b.raw.get s)))
+        | .error _ => "err"), "-")
+    | none => bad
+  | ["cliarg", hex] =>
+    match parseBytes hex with
+    | some bs =>
+      ((match Fen.parseFen bs with
+        | .ok b => "accepted " ++ showBytes (Fen.display b)
+        | .error _ => "rejected"), "-")
+    | none => bad
+  | _ => bad
+
 end Chess.Drv
